@@ -144,6 +144,9 @@ fn passthrough_configs() -> Vec<SorterCfg> {
         x.creator = creator;
         v.push(x);
     }
+    // every pass-through configuration again with the settings applied before `.chunk_creator(..)`
+    let first: Vec<SorterCfg> = v.iter().cloned().map(|mut c| { c.settings_first = true; c }).collect();
+    v.extend(first);
     v
 }
 
@@ -257,6 +260,7 @@ pub fn run(tier: Tier) -> i32 {
                 interval: None,
                 index_levels: None,
                 creator: 0,
+                settings_first: false,
             };
             real.push(Case { inserts: Inserts::Bulk { n: 9, keys: 2, vlen: 3 << 20 }, cfg, how: Extraction::Stream, pool: 0 });
         }
